@@ -385,6 +385,49 @@ def require_all_new_src():
             '  end.')
 
 
+def flatten_src():
+    """Builder.flatten and ConfigNode.merge (round 7), exact-text tables; what is translated is the ORDER: all stages are mappings, the first
+    stage is premerged against nothing and must allow new paths everywhere, then the stages are merged into it left to right, in index order,
+    each one premerged against the current root before the recursive merge at the empty path.  CONVENTIONS: stages are already preprocessed
+    (a stream as the first stage is outside this model function); the fuel of on_merge is the model's own; premerge mutates `other` and the
+    older tree in place - the model returns both (other', root') and the aliases left by !clear."""
+    def body(fn):
+        return [x for x in fn.body if not (isinstance(x, ast.Expr) and isinstance(x.value, ast.Constant))]
+    m = [U(x) for x in body(find_func('nodes/node.py', ['ConfigNode', 'ayns', 'merge']))]
+    if len(m) != 3 or not m[0].startswith('if other is None:') or m[1:] != ['other.ayns.premerge(self)', 'return self.ayns.on_merge(NodePath(), other)']:
+        raise Unsupported('ConfigNode.merge: ' + repr(m)[:300])
+    merge2 = ("Definition merge2 (e : penv) (root other : node) : res node :=\n"
+              "  do x <- on_premerge e [] other (Some root);\n"
+              "  let '(other', root', _, als) := x in\n"
+              "  let root1 := match root' with Some r => r | None => root end in\n"
+              "  do r <- on_merge als (nsize root1 + nsize other' + 1) [] root1 other';\n"
+              "  Ok (fst r).")
+    f = [U(x) for x in body(find_func('builder.py', ['Builder', 'flatten']))]
+    table = ["for stage in self.stages:\n    if not isinstance(stage, dict):\n        raise ValueError('Not all stages are dictionaries')",
+             'new_stage = self.stages[0].ayns.premerge(None)',
+             'if new_stage is not self.stages[0]:\n    try:\n        self.stages[0:1] = new_stage.stages\n    except AttributeError:\n        self.stages[0] = new_stage',
+             None,   # the _require_all_new of the first stage (checked below)
+             'if len(self.stages) < 2:\n    return',
+             'root = self.stages[0]',
+             'for i in range(1, len(self.stages)):\n    root = root.ayns.merge(self.stages[i])',
+             'self.stages = [root]']
+    if len(f) != len(table):
+        raise Unsupported('Builder.flatten: %d statements, expected %d' % (len(f), len(table)))
+    for got, want in zip(f, table):
+        if want is not None and got != want:
+            raise Unsupported('Builder.flatten: statement outside the table: ' + got[:160])
+    if not (f[3].startswith('with errors.rethrow_point(errors.MergeError, self.stages[0], None, None):\n    self.stages[0].ayns._require_all_new([], ') and f[3].count('\n') == 1):
+        raise Unsupported('Builder.flatten: the check of the first stage: ' + f[3][:160])
+    flat = ("Definition flatten (e : penv) (stages : list node) : res node :=\n"
+            "  match stages with\n  | [] => Err EOther []\n  | s0 :: rest =>\n"
+            "    if forallb is_dictk stages then\n"
+            "      do x <- on_premerge e [] s0 None;\n      let '(s0', _, _, _) := x in\n"
+            "      if require_all_new s0' [] [] true then\n"
+            "        fold_left (fun acc st => do root <- acc; merge2 e root st) rest (Ok s0')\n"
+            "      else Err EMerge []\n    else Err EOther []\n  end.")
+    return merge2 + '\n' + flat
+
+
 def main(out):
     L = ['(* GENERATED by tools/translate_merge.py from the Python source in the working tree of /repo - do not edit *)',
          'From AY Require Import Model.Merge.', 'Open Scope Z_scope.', 'Module SrcM.',
@@ -419,6 +462,7 @@ def main(out):
     L.append('Definition list_merge (super_merge : path -> node -> node -> res (node * who)) (p : path) (s o : node) : res (node * who) :=\n  '
              f'(if (andb {guard} (negb (dict_keys_ok (zlen (children s)) (children o)))) then Err EMerge p else\n  {body}).')
     L.append(require_all_new_src())
+    L.append(flatten_src())
     L.append('End SrcM.')
     text = '\n'.join(L) + '\n'
     old = open(out).read() if os.path.exists(out) else None
